@@ -33,6 +33,9 @@ use crate::iter::Bytes;
 mod iter;
 #[macro_use] mod macros;
 mod simd;
+#[cfg(httparse_verif)]
+#[doc(hidden)]
+pub mod verif;
 
 #[doc(hidden)]
 // Expose some internal functions so we can bench them individually
